@@ -40,18 +40,12 @@ def run(chk):
 
 
 def stopwatch(chk, prog):
-    fn = prog.fn(prog.fn_path("rustzx_core", "Emulator::<H>::emulate_frames"))
-    body = fn.body
-    tainted = set()
+    EF = prog.fn_path("rustzx_core", "Emulator::<H>::emulate_frames")
+    # emulate_frames together with the closures defined in it (a closure that wraps `measure()` is part of it)
+    bodies = [prog.fn(EF)] + [f for p, f in prog.fns.items() if f.local and p != EF and cc.strip_closure(p) == EF and "{closure#" in p]
     sources = 0
-    # seed: results of Stopwatch::new / measure
-    for b in body["blocks"]:
-        t = b["t"]
-        if t["k"] == "call" and "path" in t["f"] and "Stopwatch::" in t["f"]["path"]:
-            tainted.add(t["dest"]["l"])
-            sources += 1
-    chk.check(sources >= 3, "T-NONINT/Emulator::emulate_frames/sources", "stopwatch calls found: %d" % sources)
-    changed = True
+    n_tainted = 0
+    ok = True
 
     def ops_of(rv):
         k = rv[0]
@@ -71,41 +65,68 @@ def stopwatch(chk, prog):
         if op[0] in ("cp", "mv"):
             return [op[1]["l"]]
         return []
-    while changed:
-        changed = False
+
+    def callee_paths(t):
+        f = t["f"]
+        out = [f.get("path", "")]
+        r = f.get("resolved") or {}
+        if r.get("path"):
+            out.append(r["path"])
+        return out
+    for fn in bodies:
+        body = fn.body
+        tainted = set()
+        is_closure = fn.path != EF
+        # seed: results of Stopwatch::new / measure, and of the closures of emulate_frames (they may wrap a reading)
         for b in body["blocks"]:
-            for s in b["s"]:
-                if s[0] != "=":
-                    continue
-                if any(l in tainted for o in ops_of(s[2]) for l in locals_of(o)) and s[1]["l"] not in tainted and not s[1]["p"]:
-                    tainted.add(s[1]["l"])
-                    changed = True
+            t = b["t"]
+            if t["k"] != "call" or "path" not in t["f"]:
+                continue
+            cps = callee_paths(t)
+            if any("Stopwatch::" in p for p in cps):
+                tainted.add(t["dest"]["l"])
+                sources += 1
+            elif any(cc.strip_closure(p) == EF and "{closure#" in p for p in cps):
+                tainted.add(t["dest"]["l"])
+        changed = True
+        while changed:
+            changed = False
+            for b in body["blocks"]:
+                for s_ in b["s"]:
+                    if s_[0] != "=":
+                        continue
+                    if any(l in tainted for o in ops_of(s_[2]) for l in locals_of(o)) and s_[1]["l"] not in tainted and not s_[1]["p"]:
+                        tainted.add(s_[1]["l"])
+                        changed = True
+                t = b["t"]
+                if t["k"] == "call" and any(l in tainted for a in t["args"] for l in locals_of(a)):
+                    if t["dest"]["l"] not in tainted:
+                        tainted.add(t["dest"]["l"])
+                        changed = True
+        for b in body["blocks"]:
+            for s_ in b["s"]:
+                if s_[0] == "=" and s_[1]["p"] and any(l in tainted for o in ops_of(s_[2]) for l in locals_of(o)):
+                    # store through a projection: only into a local aggregate being built (EmulationInfo) is allowed
+                    if s_[1]["l"] == 1 or (s_[1]["p"] and s_[1]["p"][0][0] == "d"):
+                        ok = False
+                        chk.fail("T-NONINT/Emulator::emulate_frames/store", "a stopwatch reading is stored into emulator state at %s" % fn.loc(s_[3]))
             t = b["t"]
             if t["k"] == "call" and any(l in tainted for a in t["args"] for l in locals_of(a)):
-                if t["dest"]["l"] not in tainted:
-                    tainted.add(t["dest"]["l"])
-                    changed = True
-    ok = True
-    for b in body["blocks"]:
-        for s in b["s"]:
-            if s[0] == "=" and s[1]["p"] and any(l in tainted for o in ops_of(s[2]) for l in locals_of(o)):
-                # store through a projection: only into a local aggregate being built (EmulationInfo) is allowed
-                if s[1]["l"] == 1 or (s[1]["p"] and s[1]["p"][0][0] == "d"):
+                cps = callee_paths(t)
+                p = cps[0] or "<indirect>"
+                allowed = any(("Stopwatch::measure" in q) or ("cmp::PartialOrd" in q) or ("cmp::PartialEq" in q) or q.startswith("core::time::") or
+                              ("Result" in q and "core::" in q) or q.startswith("core::ops::") or q.startswith("core::convert::") or
+                              (cc.strip_closure(q) == EF and "{closure#" in q) for q in cps if q)
+                if not allowed:
                     ok = False
-                    chk.fail("T-NONINT/Emulator::emulate_frames/store", "a stopwatch reading is stored into emulator state at %s" % fn.loc(s[3]))
-        t = b["t"]
-        if t["k"] == "call" and any(l in tainted for a in t["args"] for l in locals_of(a)):
-            p = t["f"].get("path", "<indirect>")
-            allowed = ("Stopwatch::measure" in p) or ("cmp::PartialOrd" in p) or ("cmp::PartialEq" in p) or p.startswith("core::time::") or \
-                ("Result" in p and "core::" in p) or p.startswith("core::ops::") or p.startswith("core::convert::")
-            if not allowed:
-                ok = False
-                chk.fail("T-NONINT/Emulator::emulate_frames/call/%s" % p.split("::")[-1], "a stopwatch reading is passed to %s at %s" % (p, fn.loc(t.get("span"))))
+                    chk.fail("T-NONINT/Emulator::emulate_frames/call/%s" % p.split("::")[-1], "a stopwatch reading is passed to %s at %s" % (p, fn.loc(t.get("span"))))
+        n_tainted += len(tainted)
+    chk.check(sources >= 3, "T-NONINT/Emulator::emulate_frames/sources", "stopwatch calls found: %d" % sources)
     if ok:
         chk.ok()
-    chk.count("stopwatch-tainted-locals", len(tainted))
+    chk.count("stopwatch-tainted-locals", n_tainted)
     chk.floor("stopwatch-tainted-locals", 3)
-    # the only stopwatch users in the core are emulate_frames
+    # the only stopwatch user in the core is emulate_frames (with its closures)
     users = set()
     for f in prog.local_fns():
         if f.crate != "rustzx_core":
@@ -113,7 +134,7 @@ def stopwatch(chk, prog):
         for b in f.body["blocks"]:
             t = b["t"]
             if t["k"] == "call" and "path" in t["f"] and "Stopwatch::" in t["f"]["path"]:
-                users.add(f.path.split("::")[-1])
+                users.add(cc.strip_closure(f.path).split("::")[-1])
     chk.check(users == {"emulate_frames"}, "T-NONINT/Stopwatch/users", "the host stopwatch is consulted in %s" % sorted(users))
 
 
@@ -175,8 +196,8 @@ def mixer_isolation(chk, prog, names, cg, fa):
     for f in ("regs", "current_reg"):
         ws = set(fa.writers(CH, f))
         chk.check(not (ws & G), "T-NONINT/ZXAyChip.%s" % f, "the port-visible AY %s is written by sound generation: %s" % (f, sorted(ws & G)))
-        chk.check(set(x.split("::")[-1] for x in ws) <= {"select_reg", "write", "set_regs"}, "T-WRITERS/ZXAyChip.%s" % f,
-                  "AY %s is written by %s" % (f, sorted(x.split("::")[-1] for x in ws)))
+        eff = cc.effective_writers(prog, cg, fa, names, CH, f, {"select_reg", "write", "set_regs"})
+        chk.check(eff <= {"select_reg", "write", "set_regs"}, "T-WRITERS/ZXAyChip.%s" % f, "AY %s is written by %s" % (f, sorted(eff)))
     chk.sample({"generation_closure": sorted(x.split("::")[-1] for x in G)[:12], "fields_written": len(written)})
 
 
